@@ -1,6 +1,7 @@
 #!/bin/bash
 # usage: tools/refactest.sh [name ...]   Applies each behaviour-preserving refactoring under /verif/refactorings to /repo,
-# runs the check of its property (must exit 0: no false alarm), undoes it.
+# runs the check of its property (must exit 0: no false alarm), undoes it. XREF=1: also the checks of every other
+# property anchored in a package the refactoring touches.
 cd /repo || exit 2
 if ! git diff --quiet; then echo "repo dirty"; exit 2; fi
 names="$@"; full=0; [ -z "$names" ] && { names=$(ls /verif/refactorings); full=1; }
@@ -11,6 +12,22 @@ for n in $names; do
   if ! (GOFLAGS=-mod=mod GOPROXY=off GOSUMDB=off GOTOOLCHAIN=local GOWORK=off go test -vet=off -count=1 ./... >/tmp/rt.out 2>&1); then echo "$n PINNED-TESTS-FAIL"; git checkout -q -- .; git clean -fdq; continue; fi
   out=$(cd /verif && ./bin/gdsa check $p 2>&1); rc=$?
   if [ $rc -eq 0 ]; then echo "$n silent (ok)" | tee -a $res; else echo "$n FALSE-ALARM: $(echo "$out" | grep '^  ' | head -${RLINES:-1} | cut -c1-300)" | tee -a $res; fi
+  if [ -n "${XREF:-}" ]; then
+    # the checks of the other properties anchored in the packages this refactoring touches must stay silent too
+    others=""
+    for pk in $(grep '^+++ b/' "$d/patch.diff" | sed 's#^+++ b/\([a-z]*\)/.*#\1#' | sort -u); do
+      case $pk in
+        version) others="$others C01 C02 C03 C06 C18";; dependency) others="$others C04 C05 C06 C10 C18 C19";;
+        control) others="$others C07 C08 C09 C10 C11 C12 C18 C19 C20";; deb) others="$others C13 C14 C15 C16";;
+        changelog) others="$others C17 C18";; hashio) others="$others C12";; internal) others="$others C20";;
+      esac
+    done
+    for q in $(echo $others | tr ' ' '\n' | sort -u); do
+      [ "$q" = "$p" ] && continue
+      out=$(cd /verif && ./bin/gdsa check $q 2>&1); rc=$?
+      [ $rc -eq 0 ] || echo "$n FALSE-ALARM of $q: $(echo "$out" | grep '^  ' | head -${RLINES:-1} | cut -c1-300)" | tee -a $res
+    done
+  fi
   git checkout -q -- . ; git clean -fdq
 done
 [ $full -eq 1 ] && cp $res /verif/tools/refactest.last
